@@ -26,6 +26,26 @@ for d in sorted(glob.glob(os.path.join(ROOT, "seeded", "*"))):
     out.append("| %s | %s | %s | %s | %s | %s |" % (os.path.basename(d), m.get("property"), str(m.get("summary", ""))[:300].replace("|", "\\|").replace("\n", " "),
                str(m.get("needs", ""))[:250].replace("|", "\\|").replace("\n", " "), str(m.get("confirmed", "pending"))[:160].replace("|", "\\|"),
                str(m.get("detected_by", "pending")).replace("|", "\\|")[:300]))
+out += ["", "### 8.4 Per-property status (generated from checks/*.py, evidence/*.json; details in notes/Cnn.md)", "",
+        "| property | theorems (discharged/obligations) | correspondence cases (quick) | max rel diff | partial clause (what is carried by contract / correspondence only) |", "|---|---|---|---|---|"]
+import importlib, sys
+sys.path.insert(0, ROOT)
+for pid in ["C%02d" % i for i in range(1, 48)]:
+    cp = os.path.join(ROOT, "checks", pid + ".py")
+    if not os.path.exists(cp):
+        out.append("| %s | not built | | | |" % pid); continue
+    try:
+        spec = getattr(importlib.import_module("checks." + pid), "SPEC")
+    except Exception as e:
+        spec = {}
+    ev = {}
+    ep = os.path.join(ROOT, "evidence", pid + ".json")
+    if os.path.exists(ep):
+        try: ev = json.load(open(ep)).get("coverage", {})
+        except Exception: ev = {}
+    out.append("| %s | %s/%s | %s | %s | %s |" % (pid, ev.get("discharged", "?"), ev.get("obligations", "?"), ev.get("evaluations", "?"),
+               ("%.1e" % ev["max_rel_diff_seen"]) if isinstance(ev.get("max_rel_diff_seen"), float) else ev.get("max_rel_diff_seen", "?"),
+               str(spec.get("partial") or "—").replace("|", "\\|").replace("\n", " ")[:500]))
 out += ["", "<!-- AUTOGEN-END -->"]
 p = os.path.join(ROOT, "DESIGN.md")
 s = open(p).read()
